@@ -92,6 +92,8 @@ pub enum TlsHost {
     Other,
     Invalid,
     Ip,
+    /// the good name with white space around it: not a valid name, never "the good name"
+    Padded,
 }
 
 #[derive(Serialize, Deserialize, Clone, Debug)]
@@ -153,7 +155,7 @@ pub fn gen(rng: &mut Rng) -> CConfig {
         via_factory: rng.chance(1, 3),
         openssl: rng.chance(1, 2),
         cert: rng.pick(&[Cert::Good, Cert::Good, Cert::OtherName, Cert::RogueCa, Cert::IpOnly, Cert::CnOnly]).clone(),
-        tls_host: rng.pick(&[TlsHost::Good, TlsHost::Good, TlsHost::GoodWithPort, TlsHost::Other, TlsHost::Invalid, TlsHost::Ip]).clone(),
+        tls_host: rng.pick(&[TlsHost::Good, TlsHost::Good, TlsHost::GoodWithPort, TlsHost::Other, TlsHost::Invalid, TlsHost::Ip, TlsHost::Padded]).clone(),
         tls12: rng.chance(1, 3),
         prior_session: rng.chance(1, 3),
         openssl_peer: rng.chance(1, 4),
@@ -757,6 +759,7 @@ fn run_tls_openssl_peer(cfg: &CConfig, ctx: &mut RunCtx) -> Option<Violation> {
         TlsHost::Other => "other.test".into(),
         TlsHost::Invalid => "not a valid name!".into(),
         TlsHost::Ip => "127.0.0.1".into(),
+        TlsHost::Padded => format!(" {GOOD_NAME}\t"),
     };
     let valid = matches!(
         (&cfg.cert, &cfg.tls_host),
@@ -822,6 +825,7 @@ async fn run_tls(cfg: &CConfig, ch: &mut Chooser<Action>, ctx: &mut RunCtx) -> O
         TlsHost::Other => "other.test".into(),
         TlsHost::Invalid => "not a valid name!".into(),
         TlsHost::Ip => "127.0.0.1".into(),
+        TlsHost::Padded => format!(" {GOOD_NAME}\t"),
     };
     // the certificate is valid for the request's hostname under the configured roots
     let valid = match (&cfg.cert, &cfg.tls_host) {
